@@ -500,6 +500,14 @@ func c08(c *core.Ctx, r *core.Report) {
 				if call, ok := an.Strip(l.Cond).(*ssa.Call); ok && an.Callee(call) == failedFn && !l.Val {
 					notFailed = true
 				}
+				// a helper mapping the result to the command's error: "helper(result) returned nil"
+				if bo, ok := an.Strip(l.Cond).(*ssa.BinOp); ok && isNilConst(bo.Y) && ((bo.Op == token.NEQ && !l.Val) || (bo.Op == token.EQL && l.Val)) {
+					if hc, ok := an.Strip(bo.X).(*ssa.Call); ok && an.Callee(hc) != nil && core.InModule(an.Callee(hc)) && strings.Contains(an.D().Of(hc), "Do(") {
+						e, f := nilImplies(an.Callee(hc), failedFn)
+						errNil = errNil || e
+						notFailed = notFailed || f
+					}
+				}
 			}
 			if !(errNil && notFailed) {
 				bad++
@@ -601,4 +609,42 @@ func mustPaths(fn *ssa.Function) []an.DPath {
 		out = append(out, an.DPath{Blocks: []*ssa.BasicBlock{ret.Block()}, Lits: lits, Ret: ret})
 	}
 	return out
+}
+
+// nilImplies: on every path where helper h returns a nil error it has tested Error() == nil and Failed() == false.
+func nilImplies(h, failedFn *ssa.Function) (errNil, notFailed bool) {
+	paths, err := an.DecisionPaths(h, 4096)
+	if err != nil {
+		return false, false
+	}
+	errNil, notFailed = true, true
+	n := 0
+	for _, p := range paths {
+		if p.Ret == nil || len(p.Ret.Results) == 0 {
+			continue
+		}
+		res := p.OnPath(an.Strip(p.Ret.Results[len(p.Ret.Results)-1]))
+		if !isNilConst(res) {
+			continue
+		}
+		n++
+		e, f := false, false
+		for _, l := range p.Lits {
+			d := an.D().Of(l.Cond)
+			if bo, ok := an.Strip(l.Cond).(*ssa.BinOp); ok && strings.Contains(d, ".Error(") && isNilConst(bo.Y) {
+				if (bo.Op == token.NEQ && !l.Val) || (bo.Op == token.EQL && l.Val) {
+					e = true
+				}
+			}
+			if call, ok := an.Strip(l.Cond).(*ssa.Call); ok && an.Callee(call) == failedFn && !l.Val {
+				f = true
+			}
+		}
+		errNil = errNil && e
+		notFailed = notFailed && f
+	}
+	if n == 0 {
+		return false, false
+	}
+	return
 }
